@@ -548,6 +548,12 @@ class AxisEval:
                 vr = self.roles(s.value)
                 tg = s.targets if isinstance(s, ast.Assign) else [s.target]
                 for t in tg:
+                    if isinstance(t, ast.Subscript) and not isinstance(t.slice, (ast.Tuple, ast.Slice, ast.Constant)):
+                        # a[mask] = values with a full-rank boolean mask: the mask must be laid out like the target
+                        ar, mr = self.roles(t.value), self.roles(t.slice)
+                        if ar is not None and mr is not None and len(ar) == len(mr) and len(ar) >= 2:
+                            self._broadcast(s, ar, mr)
+                            continue
                     if isinstance(t, ast.Subscript):
                         tr = self._subscript(ast.Subscript(value=t.value, slice=t.slice, ctx=ast.Load(),
                                                            lineno=t.lineno, col_offset=t.col_offset), 0)
